@@ -18,7 +18,7 @@ META = {
         'thorough': {'arith chain length': '<= 4', 'operands/targets': 'unbounded symbolic ints', '** exponent': '0..3',
                      'access chains': 'lists <= 4'},
     },
-    'stubs': ['S1 ScopeVars.__init__', 'S3 glom_debug=True (public kwarg)', 'S4 state reset'],
+    'stubs': ['S3 glom_debug=True (public kwarg)', 'S4 state reset'],
     'outside_claim': ['chained float arithmetic ("/" only as last operation)', 'exceptions raised by a called function '
                       '(C04)', 'T[::0] ValueError and T() on non-callables (interpretive, DESIGN.md section 6)'],
     'assumptions': ['slice step != 0'],
